@@ -79,6 +79,8 @@ RULE_DOC = {
     "R-PARTIAL-SAME": "full and partial opens share one implementation, differing only in the range",
     "R-ZXY-GUARD": "coordinate lookup converts only when z ≤ 31 and x,y < 2^z, else answers no tile",
     "R-REJ-META": "metadata is accepted only through the Value::Object pattern",
+    "R-FINDZ": "the zoom search returns a zoom only under the strict test id < end of that zoom's block, over zooms 1..=31, else an error",
+    "R-HILBERT-CALL": "both conversions call hilbert_2d with the arguments in order, Variant::Hilbert, and the zoom base 1 + Σ4^i",
 }
 
 PROPERTIES = {}
@@ -135,10 +137,10 @@ prop("C06", [rs.r_budget, rs.r_leafptr, rs.r_reseek, rw.r_layout_w, rd.r_cols_wr
      ["R-BUDGET", "R-LEAFPTR", "R-RESEEK", "R-LAYOUT-W (leaf section)"],
      [RUNTIME, "that resolving root+leaves reproduces the entries for every list"])
 
-prop("C07", [tt.r_zxy_guard],
+prop("C07", [tt.r_zxy_guard, tt.r_findz, tt.r_hilbert_call],
      "Only the last clause is decided: the coordinate lookups convert (z,x,y) to an id only on paths where z ≤ 31 (exactly) and x,y < 2^z were established (through "
      "the predicate they call, expanded one level), the shift is evaluated under the zoom guard, and every other path answers Ok(None) or an error.",
-     ["R-ZXY-GUARD"],
+     ["R-ZXY-GUARD", "R-FINDZ (zoom search: strict block test, zooms 1..=31, error exit)", "R-HILBERT-CALL (argument order, variant and zoom base of both conversions)"],
      ["the Hilbert identities (ids equal the spec's, inverse conversion, contiguity, adjacency, child blocks): numerical facts about hilbert_2d over 6·10^18 points — no static argument in reach; explicitly declined"])
 
 prop("C08", [tt.r_taint_arith, tt.r_pow, tt.r_taint_alloc, tt.r_taint_index, tt.r_rec_bound, rt.r_no_unwrap, tt.r_range_end, tt.r_zxy_guard],
@@ -176,7 +178,7 @@ prop("C12", [rt.r_twin, rt.r_factory],
      ["R-TWIN", "R-TWIN-HAND", "R-FACTORY"],
      [RUNTIME, "byte identity of codec outputs"], needs_all_configs=True)
 
-prop("C13", [rt.r_xfer_rule, rt.r_xfer_inventory, rt.r_nopoll, rh.r_hdr_io],
+prop("C13", [rt.r_xfer_rule, rt.r_xfer_inventory, rt.r_nopoll, rh.r_hdr_io, rt.r_result_used],
      "Transfer discipline: no call to a short-transfer primitive (read/write/read_vectored/poll_*) exists in the crate; every stream transfer goes through read_exact, "
      "read_to_end, write_all, the varint traits, serde_json's reader or a codec adapter (inventory in the evidence); the crate implements no Future/AsyncRead/"
      "AsyncWrite/Stream itself and touches no poll/waker API, so fragmentation and Pending are handled entirely inside the trusted libraries.",
@@ -203,13 +205,13 @@ prop("C16", [st.r_order, st.r_hash_noleak, rc.r_cfg_jsonorder, rh.r_round, st.r_
      ["R-ORDER", "R-HASH-NOLEAK", "R-CFG-JSONORDER", "R-ROUND", "R-FINISH-PAIR"],
      [RUNTIME, "determinism of the codec libraries", "cross-process equality at run time"])
 
-prop("C17", [rw.r_commit_order, rh.r_hdr_io, rh.r_hdr_reject],
+prop("C17", [rw.r_commit_order, rh.r_hdr_io, rh.r_hdr_reject, rw.r_layout_w, rs.r_reseek],
      "Commit ordering on every success path of both writer twins: the first effect on the output is a seek to P+127, every section write precedes the header write, the "
      "header write is the last write effect, and the header reaches the stream through a single write_all; the reader rejects a missing magic.",
      ["R-SEEK-FIRST", "R-HDR-LAST", "R-HDR-IO", "R-HDR-REJECT"],
      ["what a pre-filled stream contained", "atomicity below write_all"])
 
-prop("C18", [rw.r_layout_w, rw.r_abs, rs.r_reseek],
+prop("C18", [rw.r_layout_w, rw.r_abs, rs.r_reseek, rs.r_budget, rw.r_commit_order],
      "Affine stream-position analysis with P the symbolic position at entry: all eight offset/length header fields are P-free and equal the measured sections, every "
      "SeekFrom::Start target has P-coefficient 1, the header lands at P, no seek goes below P, the stream is left at the archive end; the directory spill re-seeks to "
      "the remembered absolute root start.",
@@ -223,7 +225,7 @@ prop("C19", [st.r_rej_empty, rd.r_len0_err, rd.r_cols_reader, rd.r_cols_writer, 
      ["R-REJ-EMPTY", "R-LEN0", "R-REJ-META", "R-REJ-UNKNOWN"],
      ["'leaves the archive unchanged' beyond 'no mutation before the guard'"])
 
-prop("C20", [rr.r_lazy, rr.r_bounded_read, rr.r_exact_tile, rh.r_hdr_io],
+prop("C20", [rr.r_lazy, rr.r_bounded_read, rr.r_exact_tile, rh.r_hdr_io, rr.r_walk, rr.r_meta0, rr.r_addr_open],
      "Call-graph and read-summary analysis: no function that fetches tile bytes is reachable from the opener; registering a tile has no stream effect; every read on "
      "the open path is the fixed 127-byte header read or goes through take(len) after seek(Start(off)) with (off,len) a header-declared section or the walker's leaf "
      "pair; a lookup seeks to the stored offset and performs exactly one read_exact of the stored length.",
